@@ -330,6 +330,109 @@ def decFields : Nat → Bytes → Option (List WField)
 
 def parseFields (b : Bytes) : Option (List WField) := decFields b.length b
 
+/-! ### messages from records
+
+protobuf semantics of a parsed record list, per field number `k` of the schema: a scalar field takes the
+LAST record of the right wire type (records of another wire type are unknown fields and are skipped); a
+singular message field is the MERGE of all its records = the message read from the concatenation of their
+records (each occurrence must parse on its own); a repeated field collects all records in order. -/
+
+def lensOf (k : Nat) (fs : List WField) : List Bytes :=
+  fs.filterMap fun f => if f.num = k then (match f.val with | .len b => some b | _ => none) else none
+
+def varintsOf (k : Nat) (fs : List WField) : List Nat :=
+  fs.filterMap fun f => if f.num = k then (match f.val with | .varint v => some v | _ => none) else none
+
+def getVarint (k : Nat) (fs : List WField) : Nat := (varintsOf k fs).getLast?.getD 0
+
+def getBytes (k : Nat) (fs : List WField) : Bytes := (lensOf k fs).getLast?.getD []
+
+def parseAll : List Bytes → Option (List WField)
+  | [] => some []
+  | b :: bs => do
+    let x ← parseFields b
+    let xs ← parseAll bs
+    pure (x ++ xs)
+
+/-- singular message field: `some none` = absent (nil pointer), `none` = decode error -/
+def getMsg (k : Nat) (fs : List WField) : Option (Option (List WField)) :=
+  match lensOf k fs with
+  | [] => some none
+  | occ => (parseAll occ).map some
+
+def optMapM {α β : Type} (f : α → Option β) : Option α → Option (Option β)
+  | none => some none
+  | some a => (f a).map some
+
+def listMapM {α β : Type} (f : α → Option β) : List α → Option (List β)
+  | [] => some []
+  | a :: as => do
+    let b ← f a
+    let bs ← listMapM f as
+    pure (b :: bs)
+
+def bytesMsgOf (fs : List WField) : BytesMsg := getBytes 1 fs
+
+def hashHeightOf (fs : List WField) : Option HashHeightPB := do
+  let h ← getMsg 1 fs
+  pure { hash := h.map bytesMsgOf, height := getVarint 2 fs }
+
+def accountHeaderOf (fs : List WField) : Option AccountHeaderPB := do
+  let a ← getMsg 1 fs
+  let hh ← getMsg 2 fs
+  let hh ← optMapM hashHeightOf hh
+  pure { address := a.map bytesMsgOf, hashHeight := hh }
+
+def aBodyOf (fs : List WField) : Option ABodyPB := do
+  let hash ← getMsg 4 fs
+  let previousHash ← getMsg 5 fs
+  let ma ← getMsg 7 fs
+  let ma ← optMapM hashHeightOf ma
+  let address ← getMsg 8 fs
+  let toAddress ← getMsg 9 fs
+  let fromBlockHash ← getMsg 12 fs
+  let changesHash ← getMsg 21 fs
+  pure {
+    version := getVarint 1 fs, chainIdentifier := getVarint 2 fs, blockType := getVarint 3 fs,
+    hash := hash.map bytesMsgOf, previousHash := previousHash.map bytesMsgOf, height := getVarint 6 fs,
+    momentumAcknowledged := ma, address := address.map bytesMsgOf, toAddress := toAddress.map bytesMsgOf,
+    amount := getBytes 10 fs, tokenStandard := getBytes 11 fs, fromBlockHash := fromBlockHash.map bytesMsgOf,
+    data := getBytes 14 fs, fusedPlasma := getVarint 15 fs, difficulty := getVarint 17 fs, nonce := getBytes 18 fs,
+    basePlasma := getVarint 19 fs, totalPlasma := getVarint 20 fs, changesHash := changesHash.map bytesMsgOf,
+    publicKey := getBytes 22 fs, signature := getBytes 23 fs }
+
+/-- `fuel` bounds the nesting depth of field 13 -/
+def blockOf : Nat → List WField → Option BlockPB
+  | 0, _ => none
+  | f + 1, fs => do
+    let body ← aBodyOf fs
+    let ds ← listMapM (fun b => (parseFields b).bind (blockOf f)) (lensOf 13 fs)
+    pure ⟨body, ds⟩
+
+/-- `proto.Unmarshal(data, *AccountBlockProto)`; `none` = error. (Go additionally stops at nesting depth
+    10000; groups are outside the model.) -/
+def decBlockPB (b : Bytes) : Option BlockPB := (parseFields b).bind (blockOf (b.length + 1))
+
+def momentumOf (fs : List WField) : Option MomentumPB := do
+  let hash ← getMsg 3 fs
+  let previousHash ← getMsg 4 fs
+  let content ← listMapM (fun b => (parseFields b).bind accountHeaderOf) (lensOf 8 fs)
+  let changesHash ← getMsg 9 fs
+  pure {
+    version := getVarint 1 fs, chainIdentifier := getVarint 2 fs, hash := hash.map bytesMsgOf,
+    previousHash := previousHash.map bytesMsgOf, height := getVarint 5 fs, timestamp := getVarint 6 fs,
+    data := getBytes 7 fs, content := content, changesHash := changesHash.map bytesMsgOf,
+    publicKey := getBytes 10 fs, signature := getBytes 11 fs }
+
+/-- `proto.Unmarshal(data, *MomentumProto)` -/
+def decMomentumPB (b : Bytes) : Option MomentumPB := (parseFields b).bind momentumOf
+
+/-- `DeserializeAccountBlock`: outer `none` = error return, inner `none` = panic in `DeProtoAccountBlock` -/
+def deserializeBlock (b : Bytes) : Option (Option Block) := (decBlockPB b).map BlockPB.deProto
+
+/-- `DeserializeMomentum` -/
+def deserializeMomentum (b : Bytes) : Option (Option Momentum) := (decMomentumPB b).map MomentumPB.deProto
+
 /-! ## the field numbers the encoder uses, observed on probe messages with every field set -/
 
 def wireKind (v : WVal) : String :=
